@@ -173,6 +173,11 @@ def run(chk):
         except RuntimeError:
             chk.count("generator_gave_up")
     chk.judge(chunk=1500)
+    if chk.tier != "quick":
+        # generated workflows (spec/PipelineGen.tla -> real API -> Pipeline.tla):
+        # the steps that belong to this property's operations
+        from .chains import run_chains
+        run_chains(chk, 60, cfg="PipelineGen_l6.cfg", only_prop="C09")
     return chk.finish(
         rule="(1) every input of the build phase of spec/Deltas.tla (all sets "
              "of <= N deltas on the index universe x all coefficient index "
